@@ -253,6 +253,16 @@ type closer struct{ core }
 func (c *closer) Naming() string { return fmt.Sprintf("closer%d", c.id) }
 func (c *closer) Close() error   { return c.core.run() }
 
+// appCloser: a closer that holds the App it is closed by (a dependency cycle through App.CloserComponents whose
+// other end, "closer<i>", sorts before the App's own name and is therefore created first).
+type appCloser struct {
+	core
+	App *app.App `wire:""`
+}
+
+func (c *appCloser) Naming() string { return fmt.Sprintf("closer%d", c.id) }
+func (c *appCloser) Close() error   { return c.core.run() }
+
 // outer: a closer whose first field is another closer that is registered on its own.
 type outer struct {
 	first closer
@@ -491,6 +501,8 @@ func build(c Case, rec *recorder) (comps []any, bad string) {
 			comps[i] = &server{closer{core: mk(i)}}
 		case sh == "P":
 			comps[i] = &closer{core: mk(i)}
+		case sh == "A":
+			comps[i] = &appCloser{core: mk(i)}
 		case sh == "I":
 			// made by its outer
 		case strings.HasPrefix(sh, "Z"):
